@@ -197,6 +197,8 @@ type Source struct {
 	// PanicInTeardown makes every teardown of this source panic with this value (after its bookkeeping).
 	PanicInTeardown any
 
+	// Runaway is set once the source has been subscribed subscriptionBudget times.
+	Runaway    atomic.Bool
 	Subscribed atomic.Int64
 	TornDown   atomic.Int64
 	Live       atomic.Int64
@@ -216,6 +218,9 @@ type Source struct {
 	CtxNil    int      // number of subscriptions with a nil ctx
 	wg        sync.WaitGroup
 }
+
+// subscriptionBudget: see subscribe.
+const subscriptionBudget = 2000
 
 func New(name string, scripts ...Script) *Source {
 	return &Source{Name: name, Scripts: scripts}
@@ -296,6 +301,13 @@ func (s *Source) subscribe(ctx context.Context, dest ro.Observer[int]) ro.Teardo
 		}
 	}
 	sc := s.script(idx)
+	if idx >= subscriptionBudget {
+		// a runaway loop of re-subscriptions in the pipeline under test (no workload of the harness subscribes
+		// one source that often): from here on the source only completes, which ends the re-subscribing
+		// operators, so that the case comes to an end and its oracle can speak
+		s.Runaway.Store(true)
+		sc = Script{{K: rec.Complete}}
+	}
 	if s.Async {
 		s.wg.Add(1)
 		played := make(chan struct{})
